@@ -145,6 +145,14 @@ def run_case(case):
                 for k, (u, v) in enumerate(zip(a, bb)):
                     fu, fv = torch.isfinite(u), torch.isfinite(v)
                     if not torch.equal(fu, fv):
+                        uu, vv = u.reshape(-1)[(fu != fv).reshape(-1)], v.reshape(-1)[(fu != fv).reshape(-1)]
+                        fin = torch.where(torch.isfinite(uu), uu, vv)
+                        if not case["precise"] and bool((torch.isnan(uu) | torch.isnan(vv)).all()) and bool((fin.abs() > 8).all()):
+                            # float32: log of a derivative ~e^-8 or smaller whose rounding noise can flip its sign (NaN) in one
+                            # code path and not the other: numerical degeneracy (C19), not row mixing
+                            res.labels.append("f32_degenerate_logdet")
+                            res.inconclusive += 1
+                            return True
                         res.fail("batch_dependence", site, "%s: finiteness of result %d differs (e.g. %r vs %r)" % (
                             what, k, u.reshape(-1)[(fu != fv).reshape(-1)][0].item(), v.reshape(-1)[(fu != fv).reshape(-1)][0].item()),
                             what=what.split(" ")[0], target=target)
